@@ -7,9 +7,10 @@ App(line, file) == Serialize(line \o "\n", file, [format |-> "TXT", charset |-> 
 (* ---- throttle ---- *)
 VARIABLES now, cache, steps, lastNotice, tooSoon
 tv == <<now, cache, steps, lastNotice, tooSoon>>
-Dts  == {0, 1, 71, 72, 73}
+\* 0, 20 min, 71 h 20 min, 72 h - 20 min, 72 h, 72 h + 20 min, 73 h
+Dts  == {0, 1, 214, 215, 216, 217, 219}
 Nets == {"fail"} \cup Tags
-T0 == 500000
+T0 == 1500002     \* 40 minutes past an hour
 ThInit == now = T0 /\ cache = NoCache /\ steps = 0 /\ lastNotice = -1 /\ tooSoon = FALSE
 ThNext == /\ steps < MaxSteps
           /\ \E dt \in Dts, net \in Nets, dis \in BOOLEAN :
